@@ -44,6 +44,7 @@ class DType:
 
 
 float64 = DType("float")
+float32 = DType("float32")     # single precision: a conversion INTO it rounds (modelled by an uninterpreted rounding)
 int_ = DType("int")
 bool_ = DType("bool")
 object_ = DType("object")
@@ -61,11 +62,38 @@ def dtype_name(d):
     if d is bool:
         return "bool"
     if isinstance(d, str):
-        return {"float64": "float", "float": "float", "int": "int", "bool": "bool", "d": "float"}.get(d, d)
+        return {"float64": "float", "float": "float", "int": "int", "bool": "bool", "d": "float", "float32": "float32", "f4": "float32", "f": "float32"}.get(d, d)
     return "object"
 
 
+def round_to_single(v):
+    """Conversion of a double to single precision, abstracted: an uninterpreted FUNCTION rnd32 with
+    |rnd32(v) - v| <= 2^-24 |v| (normal range), rnd32(0) = 0.  Exact reals cannot say which neighbour is taken: any value in
+    the interval is allowed (counterexamples are replayed on the real package before they count)."""
+    v = v if isinstance(v, SReal) else SReal.of(v)
+    if v.is_special:
+        return v
+    if v.is_concrete:
+        import struct
+        try:
+            return SReal.of(Fraction(struct.unpack("f", struct.pack("f", float(v.v)))[0]))
+        except OverflowError:
+            return v
+    import z3
+    from .oracle import UF
+    uf = CTX.cache.get("rnd32")      # per path (the cache is reset with the path)
+    if uf is None:
+        uf = CTX.cache["rnd32"] = UF("rnd32_", 1)
+    r = uf([v])[0]
+    u = z3.RealVal("1/16777216")
+    vz, rz = v.z(), r.z()
+    CTX.assume(z3.Or(z3.And(vz >= 0, rz >= vz * (1 - u), rz <= vz * (1 + u)), z3.And(vz < 0, rz <= vz * (1 - u), rz >= vz * (1 + u))), check=False)
+    return r
+
+
 def coerce_elem(v, dt):
+    if dt == "float32":
+        return v if isinstance(v, SReal) else SReal.of(v)
     if dt == "float":
         return v if isinstance(v, SReal) else SReal.of(v)
     if dt == "int":
@@ -103,6 +131,8 @@ def common_dtype(ds):
         return "object"
     if "float" in ds:
         return "float"
+    if "float32" in ds:
+        return "float32" if ds <= {"float32", "bool"} else "float"
     if "int" in ds:
         return "int"
     if "bool" in ds:
@@ -345,6 +375,8 @@ class SArr:
         if not copy and dt == self.dtype_:
             # numpy: no copy when the type already matches (the result IS the array)
             return self
+        if dt == "float32" and self.dtype_ != "float32":
+            return SArr(self.shape, [round_to_single(coerce_elem(d, "float")) for d in self.data], "float32")
         return SArr(self.shape, [coerce_elem(d, dt) for d in self.data], dt)
 
     def item(self, *a):
